@@ -24,7 +24,8 @@ ASSUMPTIONS = [
     "hash-seed quantifier: all consistent rank orders for small M+N plus K real seeds, not 2^32 seeds",
 ]
 BOUNDS = {
-    "quick": [{"n": 2, "G": 3, "rank_bound": 4}, {"n": 3, "G": 2, "rank_bound": 4}],
+    "quick": [{"n": 2, "G": 3, "rank_bound": 4}, {"n": 3, "G": 2, "rank_bound": 4},
+              {"n": 3, "alphabet": [[0, 1], [2, 3], [0, 3], [1, 2], [3, 3]], "rank_bound": 4}],
     "thorough": [{"n": 3, "G": 3, "rank_bound": 5}, {"n": 4, "G": 2, "rank_bound": 4}],
 }
 
@@ -35,9 +36,10 @@ def bounds(tier):
 
 def cases(tier):
     for sp in BOUNDS[tier]:
-        for c in pair_cases(lattice_points(sp["G"]), sp["n"]):
+        alphabet = [tuple(p) for p in sp["alphabet"]] if "alphabet" in sp else lattice_points(sp["G"])
+        for c in pair_cases(alphabet, sp["n"]):
             c["rank_bound"] = sp["rank_bound"]
-            c["G"] = sp["G"]
+            c["G"] = sp.get("G", 3)
             yield c
 
 
